@@ -272,7 +272,9 @@ def check_misuse(ctx, case):
         # legitimate use, the check must answer (True here: the '?' axis may differ per leaf), not raise AnnotationError
         sname = {"prefix-structure": "T ...", "suffix-structure": "... T", "composite-structure": "S T"}[form]
         with jaxtyped("context"):
-            assert isinstance((1, 2), PyTree[int, "T"]) and isinstance(5, PyTree[int, "S"])
+            setup = [obs.verdict((1, 2), PyTree[int, "T"]), obs.verdict(5, PyTree[int, "S"])]
+            if setup != [dl.TRUE, dl.TRUE]:
+                raise Violation("misuse", case, f"binding the structures T=(*,*) and S=* with PyTree[int, ...] checks gave {setup} (leftovers of an earlier '?' check?)")
             got = obs.verdict((a3, a4), PyTree[base, sname])
         ctx.note(["misuse", form, spec], True, classes=[f"structure-form-{form}"])
         if got != dl.TRUE:
